@@ -281,7 +281,12 @@ func installSeams() {
 
 type cfg struct {
 	Rollup bool `json:"rollup"`
+	// Wide: flushSeq stores the replica sequence of 1500 leaders instead of one: its version-edit record is about
+	// 9 KiB (a small multiple of a page, far below the 256 KiB write buffer of the manifest writer)
+	Wide bool `json:"wide_commit,omitempty"`
 }
+
+var wide bool // cfg.Wide of the running history
 
 func storeOption(c cfg) kv.StoreOption {
 	o := kv.DefaultStoreOption()
@@ -309,6 +314,11 @@ func flush(fam kv.Family, kvs map[uint32]string, seq int64) error {
 	}
 	if seq != 0 {
 		f.Sequence(1, seq)
+		if wide {
+			for leader := int32(2); leader <= 1500; leader++ {
+				f.Sequence(leader, seq+int64(leader))
+			}
+		}
 	}
 	return f.Commit()
 }
@@ -384,6 +394,9 @@ func (h history) String() string {
 	if h.Cfg.Rollup {
 		r = "[rollup]"
 	}
+	if h.Cfg.Wide {
+		r += "[flushSeq = 1500 replica sequences]"
+	}
 	return r + strings.Join(s, ";")
 }
 
@@ -400,7 +413,11 @@ func stack() string {
 
 // runHistory executes the history on a fresh store while recording, then recovers every distinct image.
 func runHistory(rep *vevid.Report, h history) {
+	wide = h.Cfg.Wide
 	scen := "history-len=" + fmt.Sprint(len(h.Ops))
+	if wide {
+		scen += " wide-commit"
+	}
 	viol := func(clause, site, detail string) {
 		rep.Violate(vevid.Violation{Clause: clause, Scenario: scen, Site: site, Detail: "history " + h.String() + ": " + detail, Replay: h})
 	}
@@ -493,7 +510,7 @@ func runHistory(rep *vevid.Report, h history) {
 	inflightPoints := 0
 	for _, p := range points {
 		n := p.Note.(note)
-		key := p.Image.Hash() + "|" + n.Acked.canon(h.Cfg.Rollup) + "|" + n.After.canon(h.Cfg.Rollup) + fmt.Sprint(h.Cfg.Rollup)
+		key := p.Image.Hash() + "|" + n.Acked.canon(h.Cfg.Rollup) + "|" + n.After.canon(h.Cfg.Rollup) + fmt.Sprint(h.Cfg.Rollup, h.Cfg.Wide)
 		rep.Count("crash_points_total", 1)
 		if seenImages[key] {
 			continue
@@ -707,8 +724,11 @@ var curated = []history{
 	{cfg{}, []int{opCreateA, opFlush1A, opReopen, opFlush1A, opReopen, opCompactA, opReopen}},
 	{cfg{}, []int{opCreateA, opFlushSeqA, opFlushSeqA, opCompactA, opFlushSeqA, opFlush1A, opCompactA}},
 	{cfg{}, []int{opCreateA, opFlushEmptyA, opFlush1A, opFlushEmptyA, opReopen, opFlush2A, opCompactA}},
-	{cfg{true}, []int{opCreateA, opFlush1A, opFlush2A, opReopen, opFlushSeqA, opCreateB, opFlush1B}},
-	{cfg{true}, []int{opCreateA, opFlush1A, opFlush1A, opCompactA, opReopen, opFlush1A}},
+	{cfg{Rollup: true}, []int{opCreateA, opFlush1A, opFlush2A, opReopen, opFlushSeqA, opCreateB, opFlush1B}},
+	{cfg{Rollup: true}, []int{opCreateA, opFlush1A, opFlush1A, opCompactA, opReopen, opFlush1A}},
+	// commits whose metadata record is larger than a page (replica sequences of 1500 leaders)
+	{cfg{Wide: true}, []int{opCreateA, opFlush1A, opFlushSeqA, opFlush1A, opReopen}},
+	{cfg{Wide: true}, []int{opCreateA, opFlushSeqA, opFlush2A, opCompactA, opFlushSeqA, opReopen, opFlush1A}},
 }
 
 func main() {
